@@ -46,7 +46,7 @@ def prepare_b(ctx, res, stats, n_synth, n_fits):
     synth_impl = [bc.run_realloc_impl(c) for c in synth]
     tails, recorded = [], []
     for _ in range(n_fits):
-        ts, info = bc.gen_diploid(rng, gaps=0.0, mpe=float(rng.choice([3, 8])))
+        ts, info = bc.gen_diploid(rng, gaps=0.0, mpe=float(rng.choice([3, 8])), big=(ctx.tier == "thorough"))
         if ts.num_mutations == 0:
             continue
         ri = int(rng.choice([0, 1, 1, 2, 3, 5]))
@@ -63,6 +63,12 @@ def prepare_b(ctx, res, stats, n_synth, n_fits):
         if not rec["ok"]:
             key = "F5" if (rec["exc"] == "AssertionError" and bc.F5_MSG in rec["msg"]) else f"{rec['stage']}:{rec['exc']}"
             stats["fit_raised"][key] = stats["fit_raised"].get(key, 0) + 1
+            if bc.raised_in_tail(rec):
+                res.corr_failures.append(Violation(
+                    "infer-tail-model-differs",
+                    f"the tail of infer() raised {rec['exc']} ({rec['msg'][:100]}) where the Lean model returns a state",
+                    dict(kind="date", ts=gen.ts_to_jsonable(ts), kw=dict(mutation_rate=float(info["mu"]), max_iterations=1,
+                         rescaling_intervals=ri, rescaling_iterations=it, match_segregating_sites=seg)), stage="B"))
             continue
         tails.append(bc.tail_case(rec, ri, it, seg))
     text = ("".join(bc.encode_realloc(f"s{i}", c) for i, c in enumerate(synth))
@@ -142,6 +148,10 @@ def one_input(rng, res, stats):
                 res.violations.append(Violation(
                     "reallocate-raised-on-valid-input",
                     f"reallocate_unphased raised {rec['exc']} inside rescale() on a valid diploid input", replay))
+            elif bc.raised_in_tail(rec):
+                res.violations.append(Violation(
+                    "infer-tail-raised-on-valid-input",
+                    f"the end of infer() (switch / flip) raised {rec['exc']}: {rec['msg'][:120]} on a valid diploid input", replay))
         return
     _, fit = r["out"]
     bad, st = bc.check_counts(ts, fit, seg, rescaled)
@@ -167,13 +177,13 @@ def run(ctx):
     import tsdate  # noqa: F401
     stats = new_stats()
     t0 = time.time()
-    text, prepared = prepare_b(ctx, res, stats, ctx.n(150, 4000), ctx.n(20, 400))
+    text, prepared = prepare_b(ctx, res, stats, ctx.n(150, 4000), ctx.n(20, 300))
     t1 = time.time()
     model = bc.run_model(text)
     eval_b(res, stats, model, prepared)
     t2 = time.time()
     rng = ctx.rng(3)
-    for _ in range(ctx.n(30, 600)):
+    for _ in range(ctx.n(30, 500)):
         one_input(rng, res, stats)
     stats["stage_seconds"] = dict(implementation_side_of_B=round(t1 - t0, 1), lean_driver=round(t2 - t1, 1),
                                   end_to_end=round(time.time() - t2, 1))
